@@ -18,6 +18,16 @@ W2_COMPONENTS = {
 }
 
 PROPS = {
+    "C10": {
+        "level": "exploration",
+        "race": True,
+        "quick_runs": 6000, "quick_budget_s": 90,
+        "thorough_budget_s": 600,
+        "rule": "C10 scenario: cache -> observer -> [ttl plugin] -> vandal -> origin; 2-6 rounds of 1-6 concurrent queries over 1-3 keys; every hit is packed before anybody touches it and compared byte-wise with the aged snapshot of the stored answer, after earlier hits and the stored-from message were vandalised in place; same seeds under the race detector.",
+        "components": W2_COMPONENTS,
+        "cfg_dist_keys": ["keys", "max_concurrent", "ttl_plugin", "lazy"],
+        "technique": "deterministic simulation: PRNG scheduler + virtual clock, byte-wise differential oracle against snapshots, race detector under the simulated schedule",
+    },
     "C05": {
         "level": "exploration",
         "quick_runs": 6000, "quick_budget_s": 60,
